@@ -900,3 +900,1067 @@ Proof.
       destruct Habs as [Habs | Habs]; rewrite Habs; [right; right; left | right; right; right; left]; reflexivity.
     + split; [|intros _; exact Hwhy]. intros Hj Hb Hbs. apply Hbytes; assumption.
 Qed.
+
+(* ------------------------------------------------------------------------------------- *)
+(* The other append entry points                                                           *)
+(* ------------------------------------------------------------------------------------- *)
+Lemma buf_be16_bytes_spec v : [Z.land (Z.shiftr v 8) 255; Z.land v 255] = spec_be_bytes 2 v.
+Proof.
+  cbn [spec_be_bytes app]. rewrite !buf_land_255. rewrite Z.shiftr_div_pow2 by lia.
+  change (2 ^ 8) with 256. reflexivity.
+Qed.
+
+Lemma buf_be32_bytes_spec v :
+  [Z.land (Z.shiftr v 24) 255; Z.land (Z.shiftr v 16) 255; Z.land (Z.shiftr v 8) 255; Z.land v 255]
+  = spec_be_bytes 4 v.
+Proof.
+  cbn [spec_be_bytes app]. rewrite !buf_land_255. rewrite !Z.shiftr_div_pow2 by lia.
+  change (2 ^ 8) with 256. change (2 ^ 16) with (256 * 256). change (2 ^ 24) with (256 * 256 * 256).
+  rewrite <- !Z.div_div by lia. reflexivity.
+Qed.
+
+Lemma spec_be_bytes_ok k v : buf_bytes_ok (spec_be_bytes k v).
+Proof.
+  revert v. induction k as [|k IH]; intros v; cbn [spec_be_bytes]; [constructor|].
+  apply buf_bytes_ok_app; [apply IH|]. constructor; [|constructor].
+  apply Z.mod_pos_bound. lia.
+Qed.
+
+Lemma spec_be_bytes_zlen k v : buf_zlen (spec_be_bytes k v) = Z.of_nat k.
+Proof.
+  revert v. induction k as [|k IH]; intros v; cbn [spec_be_bytes]; [reflexivity|].
+  rewrite buf_zlen_app, IH. unfold buf_zlen. simpl length. lia.
+Qed.
+
+Lemma spec_be_value_app acc l x : spec_be_value acc (l ++ [x]) = spec_be_value acc l * 256 + x.
+Proof. revert acc. induction l as [|y l IH]; intros acc; cbn [spec_be_value app]; [reflexivity | apply IH]. Qed.
+
+(* decoding is the inverse of encoding: fetch_be16/32 after append_be16/32 returns the value *)
+Theorem spec_be_roundtrip k v : 0 <= v -> spec_be_value 0 (spec_be_bytes k v) = v mod 256 ^ Z.of_nat k.
+Proof.
+  revert v. induction k as [|k IH]; intros v Hv.
+  - cbn. symmetry. apply Z.mod_1_r.
+  - cbn [spec_be_bytes]. rewrite spec_be_value_app. rewrite IH by (apply Z.div_pos; lia).
+    rewrite Nat2Z.inj_succ, Z.pow_succ_r by lia.
+    rewrite (Z.rem_mul_r v 256 (256 ^ Z.of_nat k)) by (try lia; apply Z.pow_pos_nonneg; lia). lia.
+Qed.
+
+(* the encoding is the inverse of decoding on byte strings *)
+Theorem spec_be_bytes_of_value l : buf_bytes_ok l ->
+  spec_be_bytes (length l) (spec_be_value 0 l) = l.
+Proof.
+  intros Hb. induction l as [|x l IH] using rev_ind; [reflexivity|].
+  apply buf_bytes_ok_app_inv in Hb. destruct Hb as [Hl Hx]. inversion Hx as [|x0 l0 Hxr _]; subst.
+  rewrite app_length. cbn [length]. rewrite Nat.add_1_r. cbn [spec_be_bytes].
+  rewrite spec_be_value_app.
+  replace ((spec_be_value 0 l * 256 + x) / 256) with (spec_be_value 0 l)
+    by (rewrite Z.div_add_l by lia; rewrite Z.div_small by lia; lia).
+  rewrite IH by exact Hl. f_equal.
+  rewrite Z.add_comm, Z.mod_add by lia. rewrite Z.mod_small by lia. reflexivity.
+Qed.
+
+Theorem buf_append_be16_refines junk ok b v : buf_inv b ->
+  exists st b', buf_append_be16 junk ok b v = Ok (st, b') /\ buf_inv b' /\
+    In (st, buf_abs b') (spec_append_alts (buf_abs b) (spec_be_bytes 2 v)) /\
+    ((forall i, 0 <= junk i < 256) -> buf_bytes_ok (b_mem b) -> buf_bytes_ok (b_mem b')).
+Proof.
+  intros Hi. unfold buf_append_be16. rewrite buf_be16_bytes_spec.
+  destruct (buf_append_refines junk ok b (spec_be_bytes 2 v) Hi) as (st & b' & He & Hi' & Hin & Hb & _).
+  { rewrite spec_be_bytes_zlen. buf_consts. lia. }
+  exists st, b'. split; [exact He|]. split; [exact Hi'|]. split; [exact Hin|].
+  intros Hj Hm. apply Hb; [exact Hj | exact Hm | apply spec_be_bytes_ok].
+Qed.
+
+Theorem buf_append_be32_refines junk ok b v : buf_inv b ->
+  exists st b', buf_append_be32 junk ok b v = Ok (st, b') /\ buf_inv b' /\
+    In (st, buf_abs b') (spec_append_alts (buf_abs b) (spec_be_bytes 4 v)) /\
+    ((forall i, 0 <= junk i < 256) -> buf_bytes_ok (b_mem b) -> buf_bytes_ok (b_mem b')).
+Proof.
+  intros Hi. unfold buf_append_be32. rewrite buf_be32_bytes_spec.
+  destruct (buf_append_refines junk ok b (spec_be_bytes 4 v) Hi) as (st & b' & He & Hi' & Hin & Hb & _).
+  { rewrite spec_be_bytes_zlen. buf_consts. lia. }
+  exists st, b'. split; [exact He|]. split; [exact Hi'|]. split; [exact Hin|].
+  intros Hj Hm. apply Hb; [exact Hj | exact Hm | apply spec_be_bytes_ok].
+Qed.
+
+(* C14: an allocation failure inside an append reports ARES_ENOMEM and leaves the remaining
+   bytes and the tagged region unchanged (positions may have been shifted by the reclaim) *)
+Lemma spec_trim_post s : s_post (spec_trim s) = s_post s.
+Proof. unfold spec_trim. destruct (s_const s); [reflexivity|]. destruct (s_tag s); reflexivity. Qed.
+
+Lemma spec_trim_tagged s : (match s_tag s with Some t => 0 <= t | None => True end) ->
+  spec_tagged (spec_trim s) = spec_tagged s.
+Proof.
+  intros Ht. unfold spec_trim, spec_tagged. destruct (s_const s); [reflexivity|].
+  destruct (s_tag s) as [t|]; cbn [s_tag s_pre]; [|reflexivity]. apply buf_drop_0. lia.
+Qed.
+
+Lemma buf_abs_tag_nonneg b : buf_inv b -> match s_tag (buf_abs b) with Some t => 0 <= t | None => True end.
+Proof.
+  intros Hi. cbn [buf_abs s_tag]. destruct (Z.eqb_spec (b_tag b) BUF_SIZE_MAX) as [He | Hne]; [exact I|].
+  pose proof (buf_inv_tag_ne b Hi Hne). lia.
+Qed.
+
+Theorem buf_append_alloc_fail_atomic junk ok b bytes st b' :
+  buf_inv b -> buf_zlen bytes < BUF_ALLOC_LIMIT ->
+  buf_append junk ok b bytes = Ok (st, b') -> st = ARES_ENOMEM ->
+  buf_inv b' /\ buf_remaining b' = buf_remaining b /\
+  spec_tagged (buf_abs b') = spec_tagged (buf_abs b).
+Proof.
+  intros Hi Hl He Hst.
+  destruct (buf_append_refines junk ok b bytes Hi Hl) as (st0 & b0 & He0 & Hi0 & Hin & _).
+  rewrite He in He0. injection He0 as <- <-.
+  split; [exact Hi0|].
+  change (buf_remaining b') with (s_post (buf_abs b')). change (buf_remaining b) with (s_post (buf_abs b)).
+  unfold spec_append_alts in Hin.
+  destruct (buf_zlen bytes =? 0); [destruct Hin as [Hin | []]; injection Hin as Hs _; subst st; discriminate|].
+  destruct (s_const (buf_abs b)); [destruct Hin as [Hin | []]; injection Hin as Hs _; subst st; discriminate|].
+  destruct Hin as [Hin | [Hin | [Hin | [Hin | []]]]];
+    pose proof (f_equal fst Hin) as Hs; pose proof (f_equal snd Hin) as Ha; cbn [fst snd] in Hs, Ha;
+    subst st; try discriminate.
+  - rewrite <- Ha. tauto.
+  - rewrite <- Ha, spec_trim_post, spec_trim_tagged by (apply buf_abs_tag_nonneg; exact Hi). tauto.
+Qed.
+
+Theorem buf_ensure_space_alloc_fail_atomic junk ok b n st b' :
+  buf_inv b -> 0 <= n < BUF_ALLOC_LIMIT ->
+  buf_ensure_space junk ok b n = Ok (st, b') -> st = ARES_ENOMEM ->
+  buf_inv b' /\ buf_remaining b' = buf_remaining b /\ spec_tagged (buf_abs b') = spec_tagged (buf_abs b).
+Proof.
+  intros Hi Hn He Hst.
+  destruct (buf_ensure_space_refines junk ok b n Hi Hn) as (st0 & b0 & He0 & Hi0 & Habs & _).
+  rewrite He in He0. injection He0 as <- <-.
+  split; [exact Hi0|].
+  change (buf_remaining b') with (s_post (buf_abs b')). change (buf_remaining b) with (s_post (buf_abs b)).
+  destruct Habs as [Ha | Ha]; rewrite Ha; [tauto|].
+  rewrite spec_trim_post, spec_trim_tagged by (apply buf_abs_tag_nonneg; exact Hi). tauto.
+Qed.
+
+(* ------------------------------------------------------------------------------------- *)
+(* The duplicating fetches                                                                 *)
+(* ------------------------------------------------------------------------------------- *)
+Lemma buf_advance_ok b n : buf_inv b -> 0 <= n <= b_dlen b - b_off b ->
+  buf_consume b n = Ok (ARES_SUCCESS, buf_with_off b (b_off b + n)) /\
+  buf_inv (buf_with_off b (b_off b + n)) /\
+  buf_abs (buf_with_off b (b_off b + n)) = spec_advance (buf_abs b) n.
+Proof.
+  intros Hi Hn. rewrite buf_consume_ok by (try exact Hi; lia).
+  replace (b_dlen b - b_off b <? n) with false by (symmetry; apply Z.ltb_ge; lia).
+  split; [reflexivity|]. split; [|apply buf_advance_abs; assumption].
+  destruct Hi as (Ho & Ht & Hs). apply buf_inv_with_off; [split; [exact Ho | split; [exact Ht | exact Hs]] | lia |].
+  destruct Ht as [Ht | Ht]; [left; exact Ht | right; lia].
+Qed.
+
+Lemma buf_fetch_guard b n : buf_inv b ->
+  ((n =? 0) || (snd (buf_fetch b) <? n)) = ((n =? 0) || (spec_len (buf_abs b) <? n)).
+Proof.
+  intros Hi. rewrite buf_fetch_ok by exact Hi. cbn [snd]. unfold spec_len.
+  rewrite buf_abs_post, buf_remaining_zlen by exact Hi. reflexivity.
+Qed.
+
+Theorem buf_fetch_bytes_dup_refines ok b n nt : buf_inv b -> 0 <= n ->
+  exists st b' out, buf_fetch_bytes_dup ok b n nt = Ok (st, b', out) /\ buf_inv b' /\
+                    b_mem b' = b_mem b /\
+                    (st, buf_abs b', out) = spec_fetch_dup ok (buf_abs b) n nt.
+Proof.
+  intros Hi Hn. unfold buf_fetch_bytes_dup, spec_fetch_dup.
+  rewrite buf_fetch_guard by exact Hi.
+  destruct ((n =? 0) || (spec_len (buf_abs b) <? n)) eqn:Eg.
+  - exists ARES_EBADRESP, b, []. auto.
+  - destruct ok; cbn [negb].
+    2:{ exists ARES_ENOMEM, b, []. auto. }
+    apply orb_false_iff in Eg. destruct Eg as [E0 Elt].
+    apply Z.eqb_neq in E0. apply Z.ltb_ge in Elt. unfold spec_len in Elt.
+    rewrite buf_abs_post, buf_remaining_zlen in Elt by exact Hi.
+    rewrite buf_read_remaining by (try exact Hi; lia). cbn [bind].
+    destruct (buf_advance_ok b n Hi) as (Hc & Hi' & Ha); [lia|]. rewrite Hc. cbn [bind fst snd].
+    eexists _, _, _. split; [reflexivity|]. split; [exact Hi'|]. split; [reflexivity|].
+    rewrite Ha, buf_abs_post. reflexivity.
+Qed.
+
+Theorem buf_fetch_str_dup_refines ok b n : buf_inv b -> 0 <= n ->
+  exists st b' out, buf_fetch_str_dup ok b n = Ok (st, b', out) /\ buf_inv b' /\
+                    b_mem b' = b_mem b /\
+                    (st, buf_abs b', out) = spec_fetch_str_dup ok (buf_abs b) n.
+Proof.
+  intros Hi Hn. unfold buf_fetch_str_dup, spec_fetch_str_dup.
+  rewrite buf_fetch_guard by exact Hi.
+  destruct ((n =? 0) || (spec_len (buf_abs b) <? n)) eqn:Eg.
+  - exists ARES_EBADRESP, b, []. auto.
+  - apply orb_false_iff in Eg. destruct Eg as [E0 Elt].
+    apply Z.eqb_neq in E0. apply Z.ltb_ge in Elt. unfold spec_len in Elt.
+    rewrite buf_abs_post, buf_remaining_zlen in Elt by exact Hi.
+    rewrite buf_read_remaining by (try exact Hi; lia). cbn [bind]. rewrite buf_abs_post.
+    destruct (forallb buf_isprint (buf_take n (buf_remaining b))); cbn [negb].
+    2:{ exists ARES_EBADSTR, b, []. auto. }
+    destruct ok; cbn [negb].
+    2:{ exists ARES_ENOMEM, b, []. auto. }
+    destruct (buf_advance_ok b n Hi) as (Hc & Hi' & Ha); [lia|]. rewrite Hc. cbn [bind fst snd].
+    eexists _, _, _. split; [reflexivity|]. split; [exact Hi'|]. split; [reflexivity|].
+    rewrite Ha. reflexivity.
+Qed.
+
+(* the state of a freshly created buffer *)
+Lemma buf_empty_inv : buf_inv buf_empty.
+Proof.
+  unfold buf_inv, buf_empty. cbn. split; [lia|]. split; [left; reflexivity|]. left.
+  unfold buf_shape_fresh. cbn. auto.
+Qed.
+
+Lemma buf_empty_abs : buf_abs buf_empty = spec_create.
+Proof. reflexivity. Qed.
+
+Lemma buf_create_eq ok : buf_create ok = if ok then Some buf_empty else None.
+Proof. reflexivity. Qed.
+
+(* fetch_bytes_into_buf with a freshly created destination: the destination then holds exactly
+   the fetched bytes, or the allocation failed and nothing changed *)
+Theorem buf_fetch_bytes_into_buf_refines junk ok b n : buf_inv b -> 0 <= n ->
+  exists st b' d', buf_fetch_bytes_into_buf junk ok b buf_empty n = Ok (st, b', d') /\ buf_inv b' /\
+    buf_inv d' /\ b_mem b' = b_mem b /\
+    ((st = ARES_EBADRESP /\ ((n =? 0) || (spec_len (buf_abs b) <? n)) = true /\ b' = b /\ buf_remaining d' = []) \/
+     (st = ARES_SUCCESS /\ ((n =? 0) || (spec_len (buf_abs b) <? n)) = false /\
+      buf_abs b' = spec_advance (buf_abs b) n /\ buf_remaining d' = buf_take n (buf_remaining b)) \/
+     (st = ARES_ENOMEM /\ ((n =? 0) || (spec_len (buf_abs b) <? n)) = false /\ b' = b /\ buf_remaining d' = [])).
+Proof.
+  intros Hi Hn. unfold buf_fetch_bytes_into_buf.
+  rewrite buf_fetch_guard by exact Hi.
+  destruct ((n =? 0) || (spec_len (buf_abs b) <? n)) eqn:Eg.
+  - exists ARES_EBADRESP, b, buf_empty. split; [reflexivity|]. split; [exact Hi|]. split; [apply buf_empty_inv|].
+    split; [reflexivity|]. left. auto.
+  - apply orb_false_iff in Eg. destruct Eg as [E0 Elt].
+    apply Z.eqb_neq in E0. apply Z.ltb_ge in Elt. unfold spec_len in Elt.
+    rewrite buf_abs_post, buf_remaining_zlen in Elt by exact Hi.
+    pose proof (buf_inv_mem_len b Hi) as [_ Hlim].
+    rewrite buf_read_remaining by (try exact Hi; lia). cbn [bind].
+    assert (buf_zlen (buf_take n (buf_remaining b)) = n) as Htz
+      by (apply buf_take_zlen; rewrite buf_remaining_zlen by exact Hi; lia).
+    destruct (buf_append_refines junk ok buf_empty (buf_take n (buf_remaining b)) buf_empty_inv)
+      as (st & d' & He & Hid & Hin & _ & _).
+    { rewrite Htz. destruct Hi as (Ho & _). lia. }
+    rewrite He. cbn [bind fst snd].
+    unfold spec_append_alts in Hin. rewrite Htz in Hin.
+    replace (n =? 0) with false in Hin by (symmetry; apply Z.eqb_neq; exact E0).
+    rewrite buf_empty_abs in Hin. cbn [s_const spec_create] in Hin.
+    assert (spec_trim spec_create = spec_create) as Htr by reflexivity. rewrite Htr in Hin.
+    assert ((st = ARES_SUCCESS /\ buf_remaining d' = buf_take n (buf_remaining b)) \/
+            (st = ARES_ENOMEM /\ buf_remaining d' = [])) as Hcase.
+    { change (buf_remaining d') with (s_post (buf_abs d')).
+      destruct Hin as [Hin | [Hin | [Hin | [Hin | []]]]];
+        pose proof (f_equal fst Hin) as Hs; pose proof (f_equal snd Hin) as Ha; cbn [fst snd] in Hs, Ha;
+        rewrite <- Ha; [left | left | right | right]; split; auto. }
+    destruct Hcase as [(Hst & Hrem) | (Hst & Hrem)]; subst st.
+    + cbn [Z.eqb negb ARES_SUCCESS].
+      destruct (buf_advance_ok b n Hi) as (Hc & Hi' & Ha); [lia|]. rewrite Hc. cbn [bind fst snd].
+      eexists _, _, _. split; [reflexivity|]. split; [exact Hi'|]. split; [exact Hid|]. split; [reflexivity|].
+      right. left. auto.
+    + cbn [Z.eqb negb ARES_SUCCESS ARES_ENOMEM].
+      eexists _, _, _. split; [reflexivity|]. split; [exact Hi|]. split; [exact Hid|]. split; [reflexivity|].
+      right. right. auto.
+Qed.
+
+(* ------------------------------------------------------------------------------------- *)
+(* Tag fetch                                                                               *)
+(* ------------------------------------------------------------------------------------- *)
+Lemma buf_tagged_read b : buf_inv b -> b_tag b <> BUF_SIZE_MAX ->
+  s_tag (buf_abs b) = Some (b_tag b) /\
+  buf_zlen (spec_tagged (buf_abs b)) = b_off b - b_tag b /\
+  buf_read b (b_tag b) (b_off b - b_tag b) = Ok (spec_tagged (buf_abs b)).
+Proof.
+  intros Hi Hne. pose proof (buf_inv_tag_ne b Hi Hne) as Ht.
+  pose proof (buf_consumed_zlen b Hi) as Hcz.
+  assert (s_tag (buf_abs b) = Some (b_tag b)) as Est.
+  { cbn [buf_abs s_tag]. destruct (Z.eqb_spec (b_tag b) BUF_SIZE_MAX); [contradiction | reflexivity]. }
+  split; [exact Est|]. unfold spec_tagged. rewrite Est, buf_abs_pre. split.
+  - rewrite buf_drop_zlen by lia. lia.
+  - destruct Hi as (Ho & Hrest).
+    rewrite buf_read_data; [| split; [exact Ho | exact Hrest] | lia | lia | lia].
+    f_equal. unfold buf_consumed. rewrite buf_drop_take by lia. reflexivity.
+Qed.
+
+Lemma buf_fresh_nothing_held b : buf_inv b -> b_hasdata b = false -> spec_nothing_held (buf_abs b) = true.
+Proof.
+  intros Hi Hd. pose proof (buf_data_zlen b Hi) as Hz.
+  destruct Hi as (_ & _ & [Hs | [Hs | Hs]]).
+  - destruct Hs as (_ & Ha & _ & Hdl & _). unfold spec_nothing_held.
+    rewrite buf_abs_pre, buf_abs_post, buf_consumed_remaining, Hz, Hdl, buf_abs_const_flag, Hd. reflexivity.
+  - destruct Hs as (Hd' & _). congruence.
+  - destruct Hs as (Hd' & _). congruence.
+Qed.
+
+Theorem buf_tag_fetch_bytes_refines b cap : buf_inv b -> 0 <= cap ->
+  exists r, buf_tag_fetch_bytes b cap = Ok r /\ In r (spec_tag_fetch_bytes_alts (buf_abs b) cap).
+Proof.
+  intros Hi Hc. unfold buf_tag_fetch_bytes, buf_tag_fetch, spec_tag_fetch_bytes_alts.
+  destruct (Z.eqb_spec (b_tag b) BUF_SIZE_MAX) as [He | Hne]; cbn [orb].
+  { exists (ARES_EFORMERR, []). split; [reflexivity|]. cbn [buf_abs s_tag].
+    rewrite He, Z.eqb_refl. left. reflexivity. }
+  destruct (buf_tagged_read b Hi Hne) as (Est & Hz & Hr). rewrite Est.
+  pose proof (buf_inv_tag_ne b Hi Hne) as Ht. pose proof (buf_inv_mem_len b Hi) as [_ Hl].
+  destruct (b_hasdata b) eqn:Hd; cbn [negb].
+  2:{ exists (ARES_EFORMERR, []). split; [reflexivity|]. right.
+      rewrite buf_fresh_nothing_held by assumption. left. reflexivity. }
+  rewrite buf_w64_small by (destruct Hi as (Ho & _); buf_consts; lia). rewrite Hz.
+  destruct (cap <? b_off b - b_tag b).
+  { exists (ARES_EFORMERR, []). split; [reflexivity | left; reflexivity]. }
+  destruct (Z.gtb_spec (b_off b - b_tag b) 0) as [Hgt | Hle].
+  - rewrite Hr. cbn [bind]. eexists. split; [reflexivity | left; reflexivity].
+  - eexists. split; [reflexivity|]. left. f_equal. apply buf_zlen_0. lia.
+Qed.
+
+Theorem buf_tag_fetch_string_refines b cap : buf_inv b -> 0 <= cap ->
+  exists r, buf_tag_fetch_string b cap = Ok r /\ In r (spec_tag_fetch_string_alts (buf_abs b) cap).
+Proof.
+  intros Hi Hc. unfold buf_tag_fetch_string, spec_tag_fetch_string_alts.
+  destruct (Z.eqb_spec cap 0) as [He | Hne].
+  { exists (ARES_EFORMERR, []). split; [reflexivity | left; reflexivity]. }
+  destruct (buf_tag_fetch_bytes_refines b (cap - 1) Hi) as (r & Hr & Hin); [lia|].
+  rewrite Hr. cbn [bind].
+  assert (forall x, In x (spec_tag_fetch_bytes_alts (buf_abs b) (cap - 1)) ->
+          In (if negb (fst x =? ARES_SUCCESS) then x
+              else if negb (forallb buf_isprint (snd x)) then (ARES_EBADSTR, []) else x)
+             (map (fun r0 => if negb (fst r0 =? ARES_SUCCESS) then r0
+                             else if negb (forallb buf_isprint (snd r0)) then (ARES_EBADSTR, []) else r0)
+                  (spec_tag_fetch_bytes_alts (buf_abs b) (cap - 1)))) as Hmap
+    by (intros x Hx; apply in_map_iff; exists x; split; [reflexivity | exact Hx]).
+  specialize (Hmap r Hin).
+  destruct (fst r =? ARES_SUCCESS) eqn:Es; cbn [negb] in *.
+  - destruct (forallb buf_isprint (snd r)); cbn [negb] in *.
+    + exists (ARES_SUCCESS, snd r). split; [reflexivity|].
+      apply Z.eqb_eq in Es. destruct r as [st out]. cbn [fst snd] in *. subst st. exact Hmap.
+    + exists (ARES_EBADSTR, []). split; [reflexivity | exact Hmap].
+  - exists r. split; [reflexivity | exact Hmap].
+Qed.
+
+Theorem buf_tag_fetch_strdup_refines ok b : buf_inv b ->
+  exists r, buf_tag_fetch_strdup ok b = Ok r /\ In r (spec_tag_fetch_strdup_alts ok (buf_abs b)).
+Proof.
+  intros Hi. unfold buf_tag_fetch_strdup, buf_tag_fetch, spec_tag_fetch_strdup_alts.
+  destruct (Z.eqb_spec (b_tag b) BUF_SIZE_MAX) as [He | Hne]; cbn [orb].
+  { exists (ARES_EFORMERR, []). split; [reflexivity|]. cbn [buf_abs s_tag].
+    rewrite He, Z.eqb_refl. left. reflexivity. }
+  destruct (buf_tagged_read b Hi Hne) as (Est & Hz & Hr). rewrite Est.
+  pose proof (buf_inv_tag_ne b Hi Hne) as Ht. pose proof (buf_inv_mem_len b Hi) as [_ Hl].
+  destruct (b_hasdata b) eqn:Hd; cbn [negb].
+  2:{ exists (ARES_EFORMERR, []). split; [reflexivity|]. right.
+      rewrite buf_fresh_nothing_held by assumption. left. reflexivity. }
+  rewrite buf_w64_small by (destruct Hi as (Ho & _); buf_consts; lia).
+  rewrite Hr. cbn [bind].
+  destruct (negb (forallb buf_isprint (spec_tagged (buf_abs b)))).
+  { eexists. split; [reflexivity | left; reflexivity]. }
+  destruct (negb ok); eexists; (split; [reflexivity | left; reflexivity]).
+Qed.
+
+Lemma buf_const_inv bytes : 0 < buf_zlen bytes < BUF_ALLOC_LIMIT ->
+  buf_inv (mkBuf bytes (buf_zlen bytes) 0 0 BUF_SIZE_MAX true false) /\
+  buf_abs (mkBuf bytes (buf_zlen bytes) 0 0 BUF_SIZE_MAX true false) = spec_create_const bytes.
+Proof.
+  intros Hz. split.
+  - split; [cbn [b_off b_dlen]; lia|]. split; [left; reflexivity|]. right. left. unfold buf_shape_const.
+    cbn [b_hasdata b_hasabuf b_mem b_dlen b_alloc]. auto.
+  - unfold buf_abs, spec_create_const, buf_consumed, buf_remaining, buf_data. cbn [b_mem b_dlen b_off b_tag b_hasdata b_hasabuf].
+    rewrite (buf_take_all (buf_zlen bytes) bytes) by lia. rewrite buf_take_0, buf_drop_0 by lia. reflexivity.
+Qed.
+
+Lemma buf_create_const_eq ok bytes :
+  buf_create_const ok bytes =
+  if (buf_zlen bytes =? 0) || negb ok then None
+  else Some (mkBuf bytes (buf_zlen bytes) 0 0 BUF_SIZE_MAX true false).
+Proof. unfold buf_create_const. destruct (buf_zlen bytes =? 0); [reflexivity|]. destruct ok; reflexivity. Qed.
+
+Theorem buf_tag_fetch_constbuf_refines ok b : buf_inv b ->
+  exists st nb, buf_tag_fetch_constbuf ok b = Ok (st, nb) /\
+    In (st, match nb with None => [] | Some x => [buf_remaining x] end)
+       (spec_tag_fetch_constbuf_alts ok (buf_abs b)) /\
+    match nb with None => True | Some x => buf_inv x end.
+Proof.
+  intros Hi. unfold buf_tag_fetch_constbuf, buf_tag_fetch, spec_tag_fetch_constbuf_alts.
+  destruct (Z.eqb_spec (b_tag b) BUF_SIZE_MAX) as [He | Hne]; cbn [orb].
+  { exists ARES_EFORMERR, None. split; [reflexivity|]. split; [|exact I]. cbn [buf_abs s_tag].
+    rewrite He, Z.eqb_refl. left. reflexivity. }
+  destruct (buf_tagged_read b Hi Hne) as (Est & Hz & Hr). rewrite Est.
+  pose proof (buf_inv_tag_ne b Hi Hne) as Ht. pose proof (buf_inv_mem_len b Hi) as [_ Hl].
+  destruct (b_hasdata b) eqn:Hd; cbn [negb].
+  2:{ exists ARES_EFORMERR, None. split; [reflexivity|]. split; [|exact I]. right.
+      rewrite buf_fresh_nothing_held by assumption. left. reflexivity. }
+  rewrite buf_w64_small by (destruct Hi as (Ho & _); buf_consts; lia).
+  rewrite Hr. cbn [bind]. rewrite buf_create_const_eq.
+  destruct ((buf_zlen (spec_tagged (buf_abs b)) =? 0) || negb ok) eqn:Eg.
+  { exists ARES_ENOMEM, None. split; [reflexivity|]. split; [left; reflexivity | exact I]. }
+  apply orb_false_iff in Eg. destruct Eg as [E0 _]. apply Z.eqb_neq in E0.
+  destruct (buf_const_inv (spec_tagged (buf_abs b))) as [Hci Hca].
+  { destruct Hi as (Ho & _). lia. }
+  eexists ARES_SUCCESS, (Some _). split; [reflexivity|]. split; [|exact Hci].
+  left. f_equal. f_equal. change (buf_remaining ?x) with (s_post (buf_abs x)). rewrite Hca. reflexivity.
+Qed.
+
+(* ------------------------------------------------------------------------------------- *)
+(* append_start / append_finish, set_length                                                *)
+(* ------------------------------------------------------------------------------------- *)
+Theorem buf_append_via_start_refines junk ok b want bytes :
+  buf_inv b -> 0 <= want < BUF_ALLOC_LIMIT -> buf_zlen bytes <= want ->
+  exists nn k b', buf_append_via_start junk ok b want bytes = Ok (nn, k, b') /\ buf_inv b' /\
+    In (mkObs nn [k] [], buf_abs b') (spec_alts (buf_abs b) (OAppendViaStart ok want bytes)) /\
+    ((forall i, 0 <= junk i < 256) -> buf_bytes_ok (b_mem b) -> buf_bytes_ok bytes -> buf_bytes_ok (b_mem b')).
+Proof.
+  intros Hi Hw Hlen. unfold buf_append_via_start, buf_append_start. cbn [spec_alts].
+  pose proof (buf_zlen_nonneg bytes) as Hbn.
+  destruct (Z.eqb_spec want 0) as [He | Hne]; cbn [bind fst snd orb].
+  { exists 0, 0, b. split; [reflexivity|]. split; [exact Hi|]. split; [left; reflexivity | auto]. }
+  destruct (buf_ensure_space_refines junk ok b want Hi Hw) as (st & b1 & He & Hi1 & Habs & Hbytes & Hcases).
+  rewrite He. cbn [bind fst snd].
+  destruct Hcases as [(Hst & Hc & Hb) | [(Hst & Hnc & Ha1 & Hroom) | (Hst & Hnc & Hwhy)]].
+  - subst st b1. cbn [Z.eqb negb ARES_EFORMERR ARES_SUCCESS bind fst snd].
+    exists 0, 0, b. split; [reflexivity|]. split; [exact Hi|]. rewrite Hc. split; [left; reflexivity | auto].
+  - subst st. cbn [Z.eqb negb ARES_SUCCESS bind fst snd].
+    pose proof (buf_inv_mem_len b1 Hi1) as [Hm1 Hl1].
+    assert (0 <= b_dlen b1) as Hd0 by (destruct Hi1 as (Ho1 & _); lia).
+    assert (buf_zlen (b_mem b1) = b_alloc b1) as Hmz1.
+    { destruct Hi1 as (_ & _ & [Hs | [Hs | Hs]]).
+      - destruct Hs as (_ & Ha' & _). congruence.
+      - destruct Hs as (_ & Ha' & _). congruence.
+      - destruct Hs as (_ & _ & Hz & _). exact Hz. }
+    assert (b_alloc b1 < BUF_ALLOC_LIMIT) as Hal.
+    { destruct Hi1 as (_ & _ & [Hs | [Hs | Hs]]).
+      - destruct Hs as (_ & Ha' & _). congruence.
+      - destruct Hs as (_ & Ha' & _). congruence.
+      - destruct Hs as (_ & _ & _ & _ & Hz). exact Hz. }
+    rewrite (buf_w64_small (b_alloc b1 - b_dlen b1)) by (buf_consts; lia).
+    rewrite (buf_w64_small (b_alloc b1 - b_dlen b1 - 1)) by (buf_consts; lia).
+    rewrite Z.min_l by lia.
+    rewrite (buf_take_all (buf_zlen bytes) bytes) by lia.
+    unfold buf_append_finish.
+    replace (buf_zlen (b_mem b1) <? b_dlen b1 + buf_zlen bytes) with false by (symmetry; apply Z.ltb_ge; lia).
+    unfold c_ares_buf_append_finish. cbn [bind].
+    rewrite Z.add_comm. rewrite Z.mod_small by (buf_consts; lia).
+    destruct (buf_write_tail_abs b1 bytes Hi1 Ha1) as (Hi' & Habs' & Hb'); [lia|].
+    rewrite (Z.add_comm (buf_zlen bytes)).
+    eexists 1, (buf_zlen bytes), _. split; [reflexivity|]. split; [exact Hi'|]. split.
+    + replace (s_const (buf_abs b)) with false by (symmetry; exact Hnc). cbn [orb].
+      rewrite Habs'. unfold spec_maybe_trim.
+      destruct Habs as [Habs | Habs]; rewrite Habs; cbn [app]; [left | right; left]; reflexivity.
+    + intros Hj Hb Hbs. apply Hb'; [apply Hbytes; assumption | exact Hbs].
+  - subst st. cbn [Z.eqb negb ARES_ENOMEM ARES_SUCCESS bind fst snd].
+    exists 0, 0, b1. split; [reflexivity|]. split; [exact Hi1|]. split.
+    + replace (s_const (buf_abs b)) with false by (symmetry; exact Hnc). cbn [orb].
+      unfold spec_maybe_trim. cbn [app].
+      destruct Habs as [Habs | Habs]; rewrite Habs; [right; right; left | right; right; right; left]; reflexivity.
+    + intros Hj Hb Hbs. apply Hbytes; assumption.
+Qed.
+
+Lemma buf_bytes_ok_repeat x n : 0 <= x < 256 -> buf_bytes_ok (repeat x n).
+Proof. intros Hx. unfold buf_bytes_ok. apply Forall_forall. intros y Hy. apply repeat_spec in Hy. subst y. exact Hx. Qed.
+
+Lemma buf_zlen_repeat {A} (x : A) n : buf_zlen (repeat x n) = Z.of_nat n.
+Proof. unfold buf_zlen. rewrite repeat_length. reflexivity. Qed.
+
+Theorem buf_set_length_fill_refines b len fill : buf_inv b -> 0 <= len ->
+  exists st b', buf_set_length_fill b len fill = Ok (st, b') /\ buf_inv b' /\
+    In (st, buf_abs b') (spec_set_length_alts (buf_abs b) len fill) /\
+    (0 <= fill < 256 -> buf_bytes_ok (b_mem b) -> buf_bytes_ok (b_mem b')) /\
+    (* total: refused exactly when the buffer is const or len >= alloc_buf_len - offset *)
+    (st = ARES_SUCCESS <-> (s_const (buf_abs b) = false /\ len < b_alloc b - b_off b)).
+Proof.
+  intros Hi Hlen. unfold buf_set_length_fill, buf_set_length, spec_set_length_alts.
+  rewrite buf_is_const_eq. cbn [bind]. rewrite buf_abs_const_flag.
+  unfold c_ares_buf_set_length.
+  pose proof (buf_inv_mem_len b Hi) as [Hm Hl].
+  assert (0 <= b_off b <= b_dlen b) as Ho by (destruct Hi as (Ho & _); exact Ho).
+  destruct (b_hasdata b && negb (b_hasabuf b)) eqn:Ec; cbn [b2z Z.eqb negb bind fst snd ARES_EFORMERR ARES_SUCCESS].
+  { rewrite buf_with_dlen_same. exists ARES_EFORMERR, b. split; [reflexivity|]. split; [exact Hi|].
+    split; [left; reflexivity|]. split; [auto|]. split; [intros H; discriminate H | intros [H _]; discriminate H]. }
+  assert (0 <= b_alloc b < BUF_ALLOC_LIMIT /\ b_off b <= b_alloc b) as [Hal Hoa].
+  { destruct Hi as (_ & _ & [Hs | [Hs | Hs]]).
+    - destruct Hs as (_ & _ & _ & Hd0 & Ha0). rewrite Ha0. buf_consts. lia.
+    - destruct Hs as (Hd & Ha & _). rewrite Hd, Ha in Ec. discriminate.
+    - destruct Hs as (_ & _ & _ & Hd0 & Ha0). lia. }
+  rewrite Z.mod_small by (buf_consts; lia).
+  destruct (Z.geb_spec len (b_alloc b - b_off b)) as [Hge | Hlt]; cbn [bind fst snd Z.eqb negb ARES_EFORMERR ARES_SUCCESS].
+  { rewrite buf_with_dlen_same. exists ARES_EFORMERR, b. split; [reflexivity|]. split; [exact Hi|].
+    split; [right; left; reflexivity|]. split; [auto|]. split; [intros H; discriminate H | intros [_ H]; lia]. }
+  rewrite Z.mod_small by (buf_consts; lia).
+  cbn [buf_with_dlen b_dlen b_mem b_alloc b_off b_tag b_hasdata b_hasabuf].
+  assert (buf_shape_dyn b) as Hdyn.
+  { destruct Hi as (_ & _ & [Hs | [Hs | Hs]]).
+    - destruct Hs as (_ & _ & _ & Hd0 & Ha0). lia.
+    - destruct Hs as (Hd & Ha & _). rewrite Hd, Ha in Ec. discriminate.
+    - exact Hs. }
+  destruct Hdyn as (Hd & Ha & Hmz & Hda & Halim).
+  unfold spec_len. rewrite buf_abs_post, buf_remaining_zlen by exact Hi.
+  destruct (Z.gtb_spec (len + b_off b - b_dlen b) 0) as [Hext | Htrunc].
+  - (* extension: the exposed bytes are filled *)
+    replace (buf_zlen (b_mem b) <? b_dlen b + (len + b_off b - b_dlen b)) with false by (symmetry; apply Z.ltb_ge; lia).
+    set (fillb := repeat fill (Z.to_nat (len + b_off b - b_dlen b))).
+    assert (buf_zlen fillb = len + b_off b - b_dlen b) as Hfz by (unfold fillb; rewrite buf_zlen_repeat; lia).
+    destruct (buf_write_tail_abs b fillb Hi Ha) as (Hi' & Habs' & Hb'); [lia|].
+    rewrite Hfz in Hi', Habs', Hb'.
+    replace (b_dlen b + (len + b_off b - b_dlen b)) with (len + b_off b) in Hi', Habs', Hb' by lia.
+    eexists ARES_SUCCESS, _. split; [reflexivity|]. split; [exact Hi'|]. split; [|split].
+    + left. rewrite Habs'. unfold spec_app.
+      replace (len <=? b_dlen b - b_off b) with false by (symmetry; apply Z.leb_gt; lia).
+      rewrite buf_abs_const_flag, Ec. unfold fillb.
+      replace (len + b_off b - b_dlen b) with (len - (b_dlen b - b_off b)) by lia. reflexivity.
+    + intros Hf Hb. apply Hb'; [exact Hb | apply buf_bytes_ok_repeat; exact Hf].
+    + split; [intros _; split; [reflexivity | lia] | reflexivity].
+  - (* truncation *)
+    eexists ARES_SUCCESS, _. split; [reflexivity|].
+    set (b' := mkBuf (b_mem b) (len + b_off b) (b_alloc b) (b_off b) (b_tag b) (b_hasdata b) (b_hasabuf b)).
+    assert (buf_data b' = buf_take (len + b_off b) (buf_data b)) as Hdata.
+    { unfold buf_data, b'. cbn [b_mem b_dlen]. symmetry. apply buf_take_take. lia. }
+    change (buf_with_dlen b (len + b_off b)) with b'.
+    split; [|split; [|split]].
+    + destruct Hi as (_ & Ht & _). split; [unfold b'; cbn [b_off b_dlen]; lia|]. split; [exact Ht|].
+      right. right. unfold buf_shape_dyn, b'. cbn [b_hasdata b_hasabuf b_mem b_dlen b_alloc]. repeat split; try assumption; lia.
+    + left. replace (len <=? b_dlen b - b_off b) with true by (symmetry; apply Z.leb_le; lia).
+      assert (buf_consumed b' = buf_consumed b) as Hcon.
+      { unfold buf_consumed. rewrite Hdata. unfold b'. cbn [b_off]. apply buf_take_take. lia. }
+      assert (buf_remaining b' = buf_take len (buf_remaining b)) as Hrem.
+      { unfold buf_remaining. rewrite Hdata. unfold b'. cbn [b_off]. rewrite buf_drop_take by lia. f_equal. lia. }
+      change (buf_abs b') with (mkSpec (buf_consumed b') (buf_remaining b')
+                                       (if b_tag b =? BUF_SIZE_MAX then None else Some (b_tag b))
+                                       (b_hasdata b && negb (b_hasabuf b))).
+      rewrite Hcon, Hrem, Ec. reflexivity.
+    + intros _ Hb. exact Hb.
+    + split; [intros _; split; [reflexivity | lia] | reflexivity].
+Qed.
+
+(* ------------------------------------------------------------------------------------- *)
+(* consume_* family                                                                        *)
+(* ------------------------------------------------------------------------------------- *)
+Lemma buf_span_bounds p l : 0 <= buf_span p l <= buf_zlen l.
+Proof.
+  induction l as [|x l IH]; cbn [buf_span]; [unfold buf_zlen; simpl length; lia|].
+  rewrite buf_zlen_cons. destruct (p x); lia.
+Qed.
+
+Lemma buf_scan_ok b : buf_inv b -> fst (buf_fetch b) = false ->
+  buf_read b (b_off b) (snd (buf_fetch b)) = Ok (buf_remaining b).
+Proof.
+  intros Hi Hf. rewrite buf_fetch_ok in Hf by exact Hi. rewrite buf_fetch_ok by exact Hi. cbn [fst snd] in *.
+  apply Z.eqb_neq in Hf.
+  rewrite buf_read_remaining by (try exact Hi; destruct Hi as (Ho & _); lia).
+  f_equal. apply buf_take_all. rewrite buf_remaining_zlen by exact Hi. lia.
+Qed.
+
+Lemma buf_consume_ret_refines b i : buf_inv b -> 0 <= i <= b_dlen b - b_off b ->
+  exists b', buf_consume_ret b i = Ok (i, b') /\ buf_inv b' /\ b_mem b' = b_mem b /\
+             (i, buf_abs b') = spec_consume_ret (buf_abs b) i.
+Proof.
+  intros Hi Hr. unfold buf_consume_ret, spec_consume_ret.
+  destruct (i >? 0).
+  - destruct (buf_advance_ok b i Hi Hr) as (Hc & Hi' & Ha). rewrite Hc. cbn [bind snd].
+    eexists. split; [reflexivity|]. split; [exact Hi'|]. split; [reflexivity|]. rewrite Ha. reflexivity.
+  - exists b. auto.
+Qed.
+
+Lemma buf_remaining_empty b : buf_inv b -> fst (buf_fetch b) = true -> buf_remaining b = [].
+Proof.
+  intros Hi Hf. rewrite buf_fetch_ok in Hf by exact Hi. cbn [fst] in Hf. apply Z.eqb_eq in Hf.
+  apply buf_zlen_0. rewrite buf_remaining_zlen by exact Hi. exact Hf.
+Qed.
+
+Ltac buf_scan_tac Hi :=
+  let Hf := fresh "Hf" in
+  destruct (fst (buf_fetch _)) eqn:Hf;
+  [ rewrite (buf_remaining_empty _ Hi Hf) | rewrite (buf_scan_ok _ Hi Hf); cbn [bind] ].
+
+Theorem buf_consume_whitespace_refines b inc : buf_inv b ->
+  exists i b', buf_consume_whitespace b inc = Ok (i, b') /\ buf_inv b' /\ b_mem b' = b_mem b /\
+               (i, buf_abs b') = spec_whitespace (buf_abs b) inc.
+Proof.
+  intros Hi. unfold buf_consume_whitespace, spec_whitespace. rewrite buf_abs_post.
+  buf_scan_tac Hi.
+  - exists 0, b. cbn [buf_span]. auto.
+  - destruct (buf_consume_ret_refines b (buf_span (fun c => buf_is_whitespace c inc) (buf_remaining b)) Hi) as (b' & H).
+    { rewrite <- buf_remaining_zlen by exact Hi. apply buf_span_bounds. }
+    eexists _, b'. exact H.
+Qed.
+
+Theorem buf_consume_nonwhitespace_refines b : buf_inv b ->
+  exists i b', buf_consume_nonwhitespace b = Ok (i, b') /\ buf_inv b' /\ b_mem b' = b_mem b /\
+               (i, buf_abs b') = spec_nonwhitespace (buf_abs b).
+Proof.
+  intros Hi. unfold buf_consume_nonwhitespace, spec_nonwhitespace. rewrite buf_abs_post.
+  buf_scan_tac Hi.
+  - exists 0, b. cbn [buf_span]. auto.
+  - destruct (buf_consume_ret_refines b (buf_span (fun c => negb (buf_is_whitespace c true)) (buf_remaining b)) Hi) as (b' & H).
+    { rewrite <- buf_remaining_zlen by exact Hi. apply buf_span_bounds. }
+    eexists _, b'. exact H.
+Qed.
+
+Theorem buf_consume_line_refines b inc : buf_inv b ->
+  exists i b', buf_consume_line b inc = Ok (i, b') /\ buf_inv b' /\ b_mem b' = b_mem b /\
+               (i, buf_abs b') = spec_line (buf_abs b) inc.
+Proof.
+  intros Hi. unfold buf_consume_line, spec_line, spec_len. rewrite buf_abs_post.
+  pose proof (buf_remaining_zlen b Hi) as Hrz.
+  destruct (fst (buf_fetch b)) eqn:Hf.
+  - rewrite (buf_remaining_empty b Hi Hf). cbn [buf_span]. change (buf_zlen (@nil Z)) with 0.
+    replace (inc && (0 <? 0)) with false by (destruct inc; reflexivity).
+    exists 0, b. auto.
+  - rewrite (buf_scan_ok b Hi Hf). cbn [bind].
+    rewrite buf_fetch_ok by exact Hi. cbn [snd]. rewrite Hrz.
+    pose proof (buf_span_bounds (fun c => negb (c =? 10)) (buf_remaining b)) as Hsb.
+    set (i0 := buf_span (fun c => negb (c =? 10)) (buf_remaining b)) in *.
+    destruct (buf_consume_ret_refines b (if inc && (i0 <? b_dlen b - b_off b) then i0 + 1 else i0) Hi) as (b' & H).
+    { destruct inc; cbn [andb]; [|lia]. destruct (Z.ltb_spec i0 (b_dlen b - b_off b)); lia. }
+    eexists _, b'. exact H.
+Qed.
+
+Theorem buf_consume_charset_refines b cs : buf_inv b ->
+  exists i b', buf_consume_charset b cs = Ok (i, b') /\ buf_inv b' /\ b_mem b' = b_mem b /\
+               (i, buf_abs b') = spec_charset (buf_abs b) cs.
+Proof.
+  intros Hi. unfold buf_consume_charset, spec_charset. rewrite buf_abs_post.
+  destruct (buf_zlen cs =? 0).
+  - rewrite orb_true_r. exists 0, b. auto.
+  - rewrite orb_false_r. buf_scan_tac Hi.
+    + exists 0, b. cbn [buf_span]. auto.
+    + destruct (buf_consume_ret_refines b (buf_span (buf_in_charset cs) (buf_remaining b)) Hi) as (b' & H).
+      { rewrite <- buf_remaining_zlen by exact Hi. apply buf_span_bounds. }
+      eexists _, b'. exact H.
+Qed.
+
+Theorem buf_consume_until_charset_refines b cs req : buf_inv b ->
+  exists i b', buf_consume_until_charset b cs req = Ok (i, b') /\ buf_inv b' /\ b_mem b' = b_mem b /\
+               (i, buf_abs b') = spec_until_charset (buf_abs b) cs req.
+Proof.
+  intros Hi. unfold buf_consume_until_charset, spec_until_charset, spec_len. rewrite buf_abs_post.
+  pose proof (buf_remaining_zlen b Hi) as Hrz. rewrite Hrz.
+  rewrite buf_fetch_ok by exact Hi. cbn [fst snd].
+  destruct ((b_dlen b - b_off b =? 0) || (buf_zlen cs =? 0)) eqn:Eg.
+  - exists 0, b. auto.
+  - apply orb_false_iff in Eg. destruct Eg as [E0 _].
+    assert (fst (buf_fetch b) = false) as Hf by (rewrite buf_fetch_ok by exact Hi; exact E0).
+    pose proof (buf_scan_ok b Hi Hf) as Hs. rewrite buf_fetch_ok in Hs by exact Hi. cbn [snd] in Hs.
+    rewrite Hs. cbn [bind].
+    pose proof (buf_span_bounds (fun c => negb (buf_in_charset cs c)) (buf_remaining b)) as Hsb.
+    destruct (req && negb (buf_span (fun c => negb (buf_in_charset cs c)) (buf_remaining b) <? b_dlen b - b_off b)).
+    + exists BUF_SIZE_MAX, b. auto.
+    + destruct (buf_consume_ret_refines b (buf_span (fun c => negb (buf_in_charset cs c)) (buf_remaining b)) Hi) as (b' & H); [lia|].
+      eexists _, b'. exact H.
+Qed.
+
+Theorem buf_begins_with_refines b data : buf_inv b ->
+  buf_begins_with b data = Ok (spec_begins_with (buf_abs b) data).
+Proof.
+  intros Hi. unfold buf_begins_with, spec_begins_with, spec_len. rewrite buf_abs_post.
+  pose proof (buf_remaining_zlen b Hi) as Hrz. rewrite Hrz.
+  rewrite buf_fetch_ok by exact Hi. cbn [fst snd].
+  pose proof (buf_zlen_nonneg data) as Hdn.
+  destruct (Z.eqb_spec (buf_zlen data) 0) as [He | Hne].
+  - rewrite orb_true_r. reflexivity.
+  - rewrite orb_false_r. cbn [orb].
+    destruct (Z.eqb_spec (b_dlen b - b_off b) 0) as [E0 | E0].
+    + replace (buf_zlen data >? b_dlen b - b_off b) with true by (symmetry; apply Z.gtb_lt; lia). reflexivity.
+    + destruct (Z.gtb_spec (buf_zlen data) (b_dlen b - b_off b)) as [Hgt | Hle]; [reflexivity|].
+      rewrite buf_read_remaining by (try exact Hi; lia). cbn [bind].
+      destruct (buf_list_eqb (buf_take (buf_zlen data) (buf_remaining b)) data); reflexivity.
+Qed.
+
+(* ------------------------------------------------------------------------------------- *)
+(* finish                                                                                  *)
+(* ------------------------------------------------------------------------------------- *)
+Lemma spec_trim_pre_tagged s : s_const s = false -> s_pre (spec_trim s) = spec_tagged s.
+Proof. intros Hc. unfold spec_trim, spec_tagged. rewrite Hc. destruct (s_tag s); reflexivity. Qed.
+
+(* finish_bin / finish_str hand out everything from the tag on (from the cursor when no tag is
+   active): they return exactly the remaining bytes iff no tag lies before the cursor *)
+Theorem buf_finish_refines junk ok b (str : bool) : buf_inv b ->
+  exists r b', (if str then buf_finish_str junk ok b else buf_finish_bin junk ok b) = Ok (r, b') /\ buf_inv b' /\
+    ((forall i, 0 <= junk i < 256) -> buf_bytes_ok (b_mem b) -> buf_bytes_ok (b_mem b')) /\
+    In (match r with None => mkObs 0 [] [] | Some bytes => mkObs 1 [] [bytes] end,
+        match r with None => buf_abs b' | Some _ => spec_create end)
+       (spec_finish_alts str (buf_abs b)).
+Proof.
+  intros Hi.
+  assert (exists r b', buf_finish_bin junk ok b = Ok (r, b') /\ buf_inv b' /\
+    ((forall i, 0 <= junk i < 256) -> buf_bytes_ok (b_mem b) -> buf_bytes_ok (b_mem b')) /\
+    match r with
+    | None => (s_const (buf_abs b) = true /\ b' = b) \/
+              (s_const (buf_abs b) = false /\ spec_nothing_held (buf_abs b) = true /\ buf_abs b' = buf_abs b)
+    | Some bytes => s_const (buf_abs b) = false /\ bytes = spec_tagged (buf_abs b) ++ s_post (buf_abs b) /\
+                    buf_zlen bytes < buf_zlen (b_mem b')
+    end) as Hbin.
+  { unfold buf_finish_bin. rewrite buf_is_const_eq. cbn [bind]. rewrite <- buf_abs_const_flag.
+    destruct (s_const (buf_abs b)) eqn:Ec; cbn [b2z Z.eqb negb].
+    { exists None, b. split; [reflexivity|]. split; [exact Hi|]. split; [auto|]. left. auto. }
+    destruct (buf_reclaim_refines b Hi) as (b1 & Hr & Hi1 & Habs1 & Ha1 & Hd1 & Hhd1 & Hha1 & Hb1).
+    rewrite Hr. cbn [bind].
+    destruct (b_hasabuf b1) eqn:Ha; cbn [negb bind fst snd Z.eqb ARES_SUCCESS].
+    - (* allocated: hand out the block *)
+      pose proof (buf_inv_mem_len b1 Hi1) as [Hm1 _].
+      assert (0 <= b_dlen b1) as Hd0 by (destruct Hi1 as (Ho1 & _); lia).
+      rewrite buf_read_data by (try exact Hi1; lia). cbn [bind].
+      exists (Some (buf_take (b_dlen b1) (buf_drop 0 (buf_data b1)))), b1.
+      split; [reflexivity|]. split; [exact Hi1|]. split; [intros _; exact Hb1|].
+      split; [reflexivity|].
+      rewrite buf_drop_0 by lia. rewrite buf_take_all by (rewrite buf_data_zlen by exact Hi1; lia).
+      split.
+      + rewrite <- buf_consumed_remaining. rewrite <- buf_abs_pre, <- buf_abs_post, Habs1.
+        rewrite spec_trim_post, spec_trim_pre_tagged by exact Ec. reflexivity.
+      + rewrite buf_data_zlen by exact Hi1.
+        destruct Hi1 as (_ & _ & [Hs | [Hs | Hs]]).
+        * destruct Hs as (_ & Ha' & _). congruence.
+        * destruct Hs as (_ & Ha' & _). congruence.
+        * destruct Hs as (_ & _ & Hz & Hlt & _). lia.
+    - (* never allocated: ensure_space(1) *)
+      assert (buf_shape_fresh b1) as Hfresh.
+      { destruct Hi1 as (_ & _ & [Hs | [Hs | Hs]]); [exact Hs | | destruct Hs as (_ & Ha' & _); congruence].
+        destruct Hs as (Hd' & Ha' & _). rewrite buf_abs_const_flag in Ec. rewrite <- Hhd1, Hd' in Ec.
+        rewrite <- Hha1 in Ec. discriminate. }
+      assert (spec_trim (buf_abs b) = buf_abs b) as Htrim.
+      { apply buf_shape_not_dyn_trim; [exact Hi | symmetry; exact Hha1]. }
+      rewrite Htrim in Habs1.
+      assert (spec_nothing_held (buf_abs b) = true) as Hnh.
+      { rewrite <- Habs1. apply buf_fresh_nothing_held; [exact Hi1 | destruct Hfresh as (Hd' & _); exact Hd']. }
+      destruct (buf_ensure_space_refines junk ok b1 1 Hi1) as (st & b2 & He & Hi2 & Habs2 & Hbytes2 & Hcases); [buf_consts; lia|].
+      rewrite He. cbn [bind fst snd].
+      assert (buf_abs b2 = buf_abs b) as Habs2'.
+      { destruct Habs2 as [H | H]; rewrite H, Habs1; [reflexivity | exact Htrim]. }
+      destruct Hcases as [(Hst & Hc & _) | [(Hst & Hnc & Ha2 & Hroom) | (Hst & Hnc & _)]].
+      + rewrite Habs1, Ec in Hc. discriminate.
+      + subst st. cbn [Z.eqb negb ARES_SUCCESS].
+        pose proof (buf_inv_mem_len b2 Hi2) as [Hm2 _].
+        assert (0 <= b_dlen b2) as Hd0 by (destruct Hi2 as (Ho2 & _); lia).
+        rewrite buf_read_data by (try exact Hi2; lia). cbn [bind].
+        eexists (Some _), b2. split; [reflexivity|]. split; [exact Hi2|].
+        split; [intros Hj Hb; apply Hbytes2; [exact Hj | apply Hb1, Hb]|].
+        split; [reflexivity|].
+        rewrite buf_drop_0 by lia. rewrite buf_take_all by (rewrite buf_data_zlen by exact Hi2; lia).
+        split.
+        * rewrite <- buf_consumed_remaining. rewrite <- buf_abs_pre, <- buf_abs_post, Habs2'.
+          unfold spec_nothing_held in Hnh. apply andb_true_iff in Hnh. destruct Hnh as [Hz _].
+          apply Z.eqb_eq in Hz. apply buf_zlen_0 in Hz. apply app_eq_nil in Hz. destruct Hz as [Hp Hq].
+          rewrite Hp, Hq. unfold spec_tagged. rewrite Hp. destruct (s_tag (buf_abs b)) as [t|]; [|reflexivity].
+          unfold buf_drop. rewrite skipn_nil. reflexivity.
+        * rewrite buf_data_zlen by exact Hi2.
+          destruct Hi2 as (_ & _ & [Hs | [Hs | Hs]]).
+          -- destruct Hs as (_ & Ha' & _). congruence.
+          -- destruct Hs as (_ & Ha' & _). congruence.
+          -- destruct Hs as (_ & _ & Hz & Hlt & _). lia.
+      + subst st. cbn [Z.eqb negb ARES_SUCCESS ARES_ENOMEM].
+        exists None, b2. split; [reflexivity|]. split; [exact Hi2|].
+        split; [intros Hj Hb; apply Hbytes2; [exact Hj | apply Hb1, Hb]|].
+        right. auto. }
+  destruct Hbin as (r & b' & He & Hi' & Hb' & Hr).
+  destruct str.
+  - unfold buf_finish_str. rewrite He. cbn [bind fst snd].
+    destruct r as [bytes|].
+    + destruct Hr as (Hc & Hbytes & Hlt).
+      replace (buf_zlen (b_mem b') <=? buf_zlen bytes) with false by (symmetry; apply Z.leb_gt; lia).
+      eexists (Some _), b'. split; [reflexivity|]. split; [exact Hi'|]. split; [exact Hb'|].
+      unfold spec_finish_alts. rewrite Hc. left. rewrite Hbytes. reflexivity.
+    + exists None, b'. split; [reflexivity|]. split; [exact Hi'|]. split; [exact Hb'|].
+      unfold spec_finish_alts. destruct Hr as [(Hc & Hbb) | (Hc & Hnh & Hab)].
+      * rewrite Hc. subst b'. left. reflexivity.
+      * rewrite Hc, Hnh, Hab. right. left. reflexivity.
+  - rewrite He. exists r, b'. split; [reflexivity|]. split; [exact Hi'|]. split; [exact Hb'|].
+    unfold spec_finish_alts. destruct r as [bytes|].
+    + destruct Hr as (Hc & Hbytes & _). rewrite Hc, Hbytes. left. reflexivity.
+    + destruct Hr as [(Hc & Hbb) | (Hc & Hnh & Hab)].
+      * rewrite Hc. subst b'. left. reflexivity.
+      * rewrite Hc, Hnh, Hab. right. left. reflexivity.
+Qed.
+
+(* ------------------------------------------------------------------------------------- *)
+(* One operation of the API: the model step refines the specification                      *)
+(* ------------------------------------------------------------------------------------- *)
+Definition buf_op_ok (op : buf_op) : Prop :=
+  match op with
+  | OAppend _ bytes | OAppendStr _ bytes | ONewConst _ bytes => buf_bytes_ok bytes /\ buf_zlen bytes < BUF_ALLOC_LIMIT
+  | OAppendByte _ x => 0 <= x < 256
+  | OAppendViaStart _ want bytes => buf_bytes_ok bytes /\ 0 <= want < BUF_ALLOC_LIMIT
+  | OFetchBytes n | OConsume n | OTagFetchBytes n | OTagFetchString n | OSetPosition n
+  | OFetchBytesDup _ n _ | OFetchStrDup _ n | OFetchIntoBuf _ n => 0 <= n
+  | OSetLength len fill => 0 <= len /\ 0 <= fill < 256
+  | OSplit _ delims flags max_sections => 0 <= flags /\ 0 <= max_sections
+  | _ => True
+  end.
+
+Theorem buf_observe_refines b : buf_inv b -> buf_observe b = Ok (spec_view (buf_abs b)).
+Proof.
+  intros Hi. unfold buf_observe, spec_view.
+  rewrite buf_len_refines, buf_get_position_refines, buf_tag_length_refines, buf_peek_refines by exact Hi.
+  reflexivity.
+Qed.
+
+Lemma buf_remaining_bytes_ok b : buf_bytes_ok (b_mem b) -> buf_bytes_ok (buf_remaining b).
+Proof. intros H. unfold buf_remaining, buf_data. apply buf_bytes_ok_drop, buf_bytes_ok_take, H. Qed.
+
+Lemma spec_ok_bytes_eq st out : (if st =? ARES_SUCCESS then [out] else []) = spec_ok_bytes st out.
+Proof. reflexivity. Qed.
+Lemma spec_ok_val_eq st v : (if st =? ARES_SUCCESS then [v] else []) = spec_ok_val st v.
+Proof. reflexivity. Qed.
+
+Definition buf_is_split (op : buf_op) : bool := match op with OSplit _ _ _ _ => true | _ => false end.
+
+Section StepRefines.
+Variable junk : Z -> Z.
+Hypothesis junk_bytes : forall i, 0 <= junk i < 256.
+
+(* the split operation is proved separately (buf_split_refines) and plugged in here *)
+Hypothesis split_refines : forall ok_arr b delims flags max_sections,
+  buf_inv b -> 0 <= flags -> 0 <= max_sections ->
+  exists st b' pieces, buf_split ok_arr (fun _ => true) b delims flags max_sections = Ok (st, b', pieces) /\
+    buf_inv b' /\ b_mem b' = b_mem b /\
+    In (mkObs st [buf_zlen pieces] pieces, buf_abs b') (spec_split_alts ok_arr (buf_abs b) delims flags max_sections).
+
+Lemma buf_step_refines_gen b op :
+  buf_inv b -> buf_bytes_ok (b_mem b) -> buf_op_ok op -> spec_contract (buf_abs b) op = true ->
+  exists o b', buf_step junk b op = Ok (o, b') /\ buf_inv b' /\ buf_bytes_ok (b_mem b') /\
+               In (o, buf_abs b') (spec_alts (buf_abs b) op).
+Proof.
+  intros Hi Hb Hop Hc.
+  destruct op; cbn [buf_step spec_alts buf_op_ok] in *.
+  - (* OAppend *)
+    destruct Hop as [Hbs Hl].
+    destruct (buf_append_refines junk ok b bytes Hi Hl) as (st & b' & He & Hi' & Hin & Hb' & _).
+    rewrite He. cbn [bind fst snd]. eexists _, b'. split; [reflexivity|]. split; [exact Hi'|].
+    split; [apply Hb'; assumption|]. apply in_map_iff. exists (st, buf_abs b'). auto.
+  - (* OAppendByte *)
+    assert (buf_bytes_ok [x]) as Hbs by (constructor; [exact Hop | constructor]).
+    destruct (buf_append_refines junk ok b [x] Hi) as (st & b' & He & Hi' & Hin & Hb' & _);
+      [unfold buf_zlen; simpl length; buf_consts; lia|].
+    unfold buf_append_byte. rewrite He. cbn [bind fst snd]. eexists _, b'. split; [reflexivity|]. split; [exact Hi'|].
+    split; [apply Hb'; assumption|]. apply in_map_iff. exists (st, buf_abs b'). auto.
+  - (* OAppendBe16 *)
+    destruct (buf_append_be16_refines junk ok b v Hi) as (st & b' & He & Hi' & Hin & Hb').
+    rewrite He. cbn [bind fst snd]. eexists _, b'. split; [reflexivity|]. split; [exact Hi'|].
+    split; [apply Hb'; assumption|]. apply in_map_iff. exists (st, buf_abs b'). auto.
+  - (* OAppendBe32 *)
+    destruct (buf_append_be32_refines junk ok b v Hi) as (st & b' & He & Hi' & Hin & Hb').
+    rewrite He. cbn [bind fst snd]. eexists _, b'. split; [reflexivity|]. split; [exact Hi'|].
+    split; [apply Hb'; assumption|]. apply in_map_iff. exists (st, buf_abs b'). auto.
+  - (* OAppendStr *)
+    destruct Hop as [Hbs Hl].
+    destruct (buf_append_refines junk ok b str Hi Hl) as (st & b' & He & Hi' & Hin & Hb' & _).
+    rewrite He. cbn [bind fst snd]. eexists _, b'. split; [reflexivity|]. split; [exact Hi'|].
+    split; [apply Hb'; assumption|]. apply in_map_iff. exists (st, buf_abs b'). auto.
+  - (* OAppendViaStart *)
+    destruct Hop as [Hbs Hw]. cbn [spec_contract] in Hc. apply Z.leb_le in Hc.
+    destruct (buf_append_via_start_refines junk ok b want bytes Hi Hw Hc) as (nn & k & b' & He & Hi' & Hin & Hb').
+    rewrite He. cbn [bind fst snd]. eexists _, b'. split; [reflexivity|]. split; [exact Hi'|].
+    split; [apply Hb'; assumption | exact Hin].
+  - (* OFetchBytes *)
+    destruct (buf_fetch_bytes_refines b n Hi Hop) as (st & b' & out & He & Hi' & Hs).
+    rewrite He. cbn [bind fst snd]. eexists _, b'. split; [reflexivity|]. split; [exact Hi'|].
+    split.
+    + unfold buf_fetch_bytes in He. destruct ((n =? 0) || (snd (buf_fetch b) <? n)).
+      * injection He as _ <- _. exact Hb.
+      * destruct (buf_read b (b_off b) n); cbn [bind] in He; try discriminate.
+        rewrite buf_consume_ok in He by assumption. cbn [bind] in He.
+        destruct (b_dlen b - b_off b <? n); cbn [fst snd] in He; injection He as _ <- _; exact Hb.
+    + rewrite <- Hs. cbn [fst snd]. left. reflexivity.
+  - (* OFetchBe16 *)
+    destruct (buf_fetch_be16_refines b Hi (buf_remaining_bytes_ok b Hb)) as (st & b' & v & He & Hi' & Hs).
+    rewrite He. cbn [bind fst snd]. eexists _, b'. split; [reflexivity|]. split; [exact Hi'|].
+    split.
+    + assert (b_mem b' = b_mem b) as Hm; [|rewrite Hm; exact Hb].
+      unfold buf_fetch_be16 in He. destruct (snd (buf_fetch b) <? 2); [injection He as _ <- _; reflexivity|].
+      destruct (buf_read b (b_off b) 2) as [bytes| |]; cbn [bind] in He; try discriminate.
+      destruct bytes as [|p0 [|p1 [|p2 r]]]; try discriminate.
+      rewrite buf_consume_ok in He by (try exact Hi; lia). cbn [bind] in He.
+      destruct (b_dlen b - b_off b <? 2); cbn [fst snd] in He; injection He as _ <- _; reflexivity.
+    + rewrite <- Hs. cbn [fst snd]. left. reflexivity.
+  - (* OFetchBe32 *)
+    destruct (buf_fetch_be32_refines b Hi (buf_remaining_bytes_ok b Hb)) as (st & b' & v & He & Hi' & Hs).
+    rewrite He. cbn [bind fst snd]. eexists _, b'. split; [reflexivity|]. split; [exact Hi'|].
+    split.
+    + assert (b_mem b' = b_mem b) as Hm; [|rewrite Hm; exact Hb].
+      unfold buf_fetch_be32 in He. destruct (snd (buf_fetch b) <? 4); [injection He as _ <- _; reflexivity|].
+      destruct (buf_read b (b_off b) 4) as [bytes| |]; cbn [bind] in He; try discriminate.
+      destruct bytes as [|p0 [|p1 [|p2 [|p3 [|p4 r]]]]]; try discriminate.
+      rewrite buf_consume_ok in He by (try exact Hi; lia). cbn [bind] in He.
+      destruct (b_dlen b - b_off b <? 4); cbn [fst snd] in He; injection He as _ <- _; reflexivity.
+    + rewrite <- Hs. cbn [fst snd]. left. reflexivity.
+  - (* OPeekByte *)
+    rewrite buf_peek_byte_refines by exact Hi. cbn [bind fst snd].
+    eexists _, b. split; [reflexivity|]. split; [exact Hi|]. split; [exact Hb|]. left. reflexivity.
+  - (* OFetchBytesDup *)
+    destruct (buf_fetch_bytes_dup_refines ok b n null_term Hi Hop) as (st & b' & out & He & Hi' & Hm & Hs).
+    rewrite He. cbn [bind fst snd]. eexists _, b'. split; [reflexivity|]. split; [exact Hi'|].
+    split; [rewrite Hm; exact Hb|]. rewrite <- Hs. cbn [fst snd]. left. reflexivity.
+  - (* OFetchStrDup *)
+    destruct (buf_fetch_str_dup_refines ok b n Hi Hop) as (st & b' & out & He & Hi' & Hm & Hs).
+    rewrite He. cbn [bind fst snd]. eexists _, b'. split; [reflexivity|]. split; [exact Hi'|].
+    split; [rewrite Hm; exact Hb|]. rewrite <- Hs. cbn [fst snd]. left. reflexivity.
+  - (* OFetchIntoBuf *)
+    destruct (buf_fetch_bytes_into_buf_refines junk ok b n Hi Hop) as (st & b' & d' & He & Hi' & Hid & Hm & Hcases).
+    rewrite He. cbn [bind fst snd]. rewrite buf_peek_refines by exact Hid. cbn [bind]. rewrite buf_abs_post.
+    eexists _, b'. split; [reflexivity|]. split; [exact Hi'|]. split; [rewrite Hm; exact Hb|].
+    destruct Hcases as [(Hst & Hg & Hbb & Hd) | [(Hst & Hg & Ha & Hd) | (Hst & Hg & Hbb & Hd)]]; rewrite Hg, Hd, Hst.
+    + subst b'. left. reflexivity.
+    + rewrite Ha. left. rewrite buf_abs_post. reflexivity.
+    + subst b'. right. left. reflexivity.
+  - (* OConsume *)
+    destruct (buf_consume_refines b n Hi Hop) as (st & b' & He & Hi' & Hs).
+    rewrite He. cbn [bind fst snd]. eexists _, b'. split; [reflexivity|]. split; [exact Hi'|].
+    split.
+    + rewrite buf_consume_ok in He by assumption. destruct (b_dlen b - b_off b <? n); injection He as _ <-; exact Hb.
+    + rewrite <- Hs. left. reflexivity.
+  - (* OTag *)
+    destruct (buf_tag_refines b Hi) as (b' & He & Hi' & Hs).
+    rewrite He. cbn [bind]. eexists _, b'. split; [reflexivity|]. split; [exact Hi'|].
+    split; [injection He as <-; exact Hb|]. rewrite Hs. left. reflexivity.
+  - (* ORollback *)
+    destruct (buf_tag_rollback_refines b Hi) as (st & b' & He & Hi' & Hs).
+    rewrite He. cbn [bind fst snd]. eexists _, b'. split; [reflexivity|]. split; [exact Hi'|].
+    split.
+    + rewrite buf_tag_rollback_ok in He. destruct (b_tag b =? BUF_SIZE_MAX); injection He as _ <-; exact Hb.
+    + rewrite <- Hs. left. reflexivity.
+  - (* OTagClear *)
+    destruct (buf_tag_clear_refines b Hi) as (st & b' & He & Hi' & Hs).
+    rewrite He. cbn [bind fst snd]. eexists _, b'. split; [reflexivity|]. split; [exact Hi'|].
+    split.
+    + unfold buf_tag_clear, c_ares_buf_tag_clear in He. destruct (b_tag b =? 18446744073709551615); cbn [bind fst snd] in He; injection He as _ <-; exact Hb.
+    + rewrite <- Hs. left. reflexivity.
+  - (* OTagFetchBytes *)
+    destruct (buf_tag_fetch_bytes_refines b cap Hi Hop) as (r & He & Hin).
+    rewrite He. cbn [bind]. eexists _, b. split; [reflexivity|]. split; [exact Hi|]. split; [exact Hb|].
+    apply in_map_iff. exists r. auto.
+  - (* OTagFetchString *)
+    destruct (buf_tag_fetch_string_refines b cap Hi Hop) as (r & He & Hin).
+    rewrite He. cbn [bind]. eexists _, b. split; [reflexivity|]. split; [exact Hi|]. split; [exact Hb|].
+    apply in_map_iff. exists r. auto.
+  - (* OTagFetchStrdup *)
+    destruct (buf_tag_fetch_strdup_refines ok b Hi) as (r & He & Hin).
+    rewrite He. cbn [bind]. eexists _, b. split; [reflexivity|]. split; [exact Hi|]. split; [exact Hb|].
+    apply in_map_iff. exists r. auto.
+  - (* OTagFetchConstbuf *)
+    destruct (buf_tag_fetch_constbuf_refines ok b Hi) as (st & nb & He & Hin & Hnb).
+    rewrite He. cbn [bind fst snd].
+    destruct nb as [x|].
+    + rewrite buf_peek_refines by exact Hnb. cbn [bind]. rewrite buf_abs_post.
+      eexists _, b. split; [reflexivity|]. split; [exact Hi|]. split; [exact Hb|].
+      apply in_map_iff. eexists (st, _). split; [|exact Hin]. reflexivity.
+    + eexists _, b. split; [reflexivity|]. split; [exact Hi|]. split; [exact Hb|].
+      apply in_map_iff. eexists (st, _). split; [|exact Hin]. reflexivity.
+  - (* OSetLength *)
+    destruct Hop as [Hl Hf].
+    destruct (buf_set_length_fill_refines b len fill Hi Hl) as (st & b' & He & Hi' & Hin & Hb' & _).
+    rewrite He. cbn [bind fst snd]. eexists _, b'. split; [reflexivity|]. split; [exact Hi'|].
+    split; [apply Hb'; assumption|]. apply in_map_iff. exists (st, buf_abs b'). auto.
+  - (* OSetPosition *)
+    cbn [spec_contract] in Hc.
+    destruct (buf_set_position_refines b idx Hi Hop Hc) as (st & b' & He & Hi' & Hs).
+    rewrite He. cbn [bind fst snd]. eexists _, b'. split; [reflexivity|]. split; [exact Hi'|].
+    split.
+    + rewrite buf_set_position_ok in He. destruct (idx >? b_dlen b); injection He as _ <-; exact Hb.
+    + rewrite <- Hs. left. reflexivity.
+  - (* OReclaim *)
+    destruct (buf_reclaim_refines b Hi) as (b' & He & Hi' & Hs & _ & _ & _ & _ & Hb').
+    rewrite He. cbn [bind]. eexists _, b'. split; [reflexivity|]. split; [exact Hi'|].
+    split; [apply Hb', Hb|]. rewrite Hs. left. reflexivity.
+  - (* OWhitespace *)
+    destruct (buf_consume_whitespace_refines b include_linefeed Hi) as (i & b' & He & Hi' & Hm & Hs).
+    rewrite He. cbn [bind fst snd]. eexists _, b'. split; [reflexivity|]. split; [exact Hi'|].
+    split; [rewrite Hm; exact Hb|]. rewrite <- Hs. left. reflexivity.
+  - (* ONonWhitespace *)
+    destruct (buf_consume_nonwhitespace_refines b Hi) as (i & b' & He & Hi' & Hm & Hs).
+    rewrite He. cbn [bind fst snd]. eexists _, b'. split; [reflexivity|]. split; [exact Hi'|].
+    split; [rewrite Hm; exact Hb|]. rewrite <- Hs. left. reflexivity.
+  - (* OLine *)
+    destruct (buf_consume_line_refines b include_linefeed Hi) as (i & b' & He & Hi' & Hm & Hs).
+    rewrite He. cbn [bind fst snd]. eexists _, b'. split; [reflexivity|]. split; [exact Hi'|].
+    split; [rewrite Hm; exact Hb|]. rewrite <- Hs. left. reflexivity.
+  - (* OCharset *)
+    destruct (buf_consume_charset_refines b cs Hi) as (i & b' & He & Hi' & Hm & Hs).
+    rewrite He. cbn [bind fst snd]. eexists _, b'. split; [reflexivity|]. split; [exact Hi'|].
+    split; [rewrite Hm; exact Hb|]. rewrite <- Hs. left. reflexivity.
+  - (* OUntilCharset *)
+    destruct (buf_consume_until_charset_refines b cs require Hi) as (i & b' & He & Hi' & Hm & Hs).
+    rewrite He. cbn [bind fst snd]. eexists _, b'. split; [reflexivity|]. split; [exact Hi'|].
+    split; [rewrite Hm; exact Hb|]. rewrite <- Hs. left. reflexivity.
+  - (* OBeginsWith *)
+    rewrite buf_begins_with_refines by exact Hi. cbn [bind].
+    eexists _, b. split; [reflexivity|]. split; [exact Hi|]. split; [exact Hb|]. left. reflexivity.
+  - (* OSplit *)
+    destruct Hop as [Hfl Hmx].
+    destruct (split_refines ok_arr b delims flags max_sections Hi Hfl Hmx) as (st & b' & pieces & He & Hi' & Hm & Hin).
+    rewrite He. cbn [bind fst snd]. eexists _, b'. split; [reflexivity|]. split; [exact Hi'|].
+    split; [rewrite Hm; exact Hb | exact Hin].
+  - (* OFinishBin *)
+    destruct (buf_finish_refines junk ok b false Hi) as (r & b' & He & Hi' & Hb' & Hin).
+    cbn beta iota in He. rewrite He. cbn [bind fst snd].
+    destruct r as [bytes|].
+    + eexists _, buf_empty. split; [reflexivity|]. split; [apply buf_empty_inv|]. split; [constructor|].
+      rewrite buf_empty_abs. exact Hin.
+    + eexists _, b'. split; [reflexivity|]. split; [exact Hi'|]. split; [apply Hb'; assumption | exact Hin].
+  - (* OFinishStr *)
+    destruct (buf_finish_refines junk ok b true Hi) as (r & b' & He & Hi' & Hb' & Hin).
+    cbn beta iota in He. rewrite He. cbn [bind fst snd].
+    destruct r as [bytes|].
+    + eexists _, buf_empty. split; [reflexivity|]. split; [apply buf_empty_inv|]. split; [constructor|].
+      rewrite buf_empty_abs. exact Hin.
+    + eexists _, b'. split; [reflexivity|]. split; [exact Hi'|]. split; [apply Hb'; assumption | exact Hin].
+  - (* ONew *)
+    rewrite buf_create_eq. destruct ok.
+    + eexists _, buf_empty. split; [reflexivity|]. split; [apply buf_empty_inv|]. split; [constructor|].
+      left. reflexivity.
+    + eexists _, b. split; [reflexivity|]. split; [exact Hi|]. split; [exact Hb|]. left. reflexivity.
+  - (* ONewConst *)
+    destruct Hop as [Hbs Hl]. rewrite buf_create_const_eq.
+    pose proof (buf_zlen_nonneg bytes) as Hn.
+    destruct (Z.eqb_spec (buf_zlen bytes) 0) as [He | Hne]; cbn [orb negb].
+    + eexists _, b. split; [reflexivity|]. split; [exact Hi|]. split; [exact Hb|].
+      rewrite andb_false_r. left. reflexivity.
+    + destruct ok; cbn [negb andb].
+      * destruct (buf_const_inv bytes) as [Hci Hca]; [lia|].
+        eexists _, _. split; [reflexivity|]. split; [exact Hci|]. split; [exact Hbs|].
+        rewrite Hca. left. reflexivity.
+      * eexists _, b. split; [reflexivity|]. split; [exact Hi|]. split; [exact Hb|]. left. reflexivity.
+Qed.
+End StepRefines.
+
+(* ------------------------------------------------------------------------------------- *)
+(* Lifting to operation sequences                                                          *)
+(* ------------------------------------------------------------------------------------- *)
+Lemma buf_list_eqb_refl l : buf_list_eqb l l = true.
+Proof. induction l as [|x l IH]; cbn [buf_list_eqb]; [reflexivity|]. rewrite Z.eqb_refl, IH. reflexivity. Qed.
+Lemma buf_zlists_eqb_refl l : buf_zlists_eqb l l = true.
+Proof. induction l as [|x l IH]; cbn [buf_zlists_eqb]; [reflexivity|]. rewrite buf_list_eqb_refl, IH. reflexivity. Qed.
+Lemma bobs_eqb_refl o : bobs_eqb o o = true.
+Proof. unfold bobs_eqb. rewrite Z.eqb_refl, buf_list_eqb_refl, buf_zlists_eqb_refl. reflexivity. Qed.
+Lemma bview_eqb_refl v : bview_eqb v v = true.
+Proof. unfold bview_eqb. rewrite !Z.eqb_refl, buf_list_eqb_refl. reflexivity. Qed.
+
+Lemma spec_monitor_step_in states op s o s' :
+  In s states -> In (o, s') (spec_alts s op) -> In s' (spec_monitor_step states op o (spec_view s')).
+Proof.
+  intros Hs Ha. unfold spec_monitor_step. apply nodup_In. apply in_flat_map. exists s. split; [exact Hs|].
+  apply in_map_iff. exists (o, s'). split; [reflexivity|].
+  apply filter_In. split; [exact Ha|]. cbn [fst snd]. rewrite bobs_eqb_refl, bview_eqb_refl. reflexivity.
+Qed.
+
+Section RunRefines.
+Variable junk : Z -> Z.
+Hypothesis junk_bytes : forall i, 0 <= junk i < 256.
+Hypothesis split_refines : forall ok_arr b delims flags max_sections,
+  buf_inv b -> 0 <= flags -> 0 <= max_sections ->
+  exists st b' pieces, buf_split ok_arr (fun _ => true) b delims flags max_sections = Ok (st, b', pieces) /\
+    buf_inv b' /\ b_mem b' = b_mem b /\
+    In (mkObs st [buf_zlen pieces] pieces, buf_abs b') (spec_split_alts ok_arr (buf_abs b) delims flags max_sections).
+
+Lemma buf_run_refines_gen ops : forall b states,
+  buf_inv b -> buf_bytes_ok (b_mem b) -> Forall buf_op_ok ops -> In (buf_abs b) states ->
+  exists tr, buf_run_checked junk b ops = Ok tr /\ spec_accepts states ops tr = true.
+Proof.
+  induction ops as [|op ops IH]; intros b states Hi Hb Hops Hin.
+  - exists []. split; reflexivity.
+  - inversion Hops as [|x l Hop Hrest]; subst.
+    cbn [buf_run_checked spec_accepts].
+    destruct (spec_contract (buf_abs b) op) eqn:Hc.
+    + destruct (buf_step_refines_gen junk junk_bytes split_refines b op Hi Hb Hop Hc) as (o & b' & Hs & Hi' & Hb' & Halt).
+      rewrite Hs. cbn [bind fst snd]. rewrite buf_observe_refines by exact Hi'. cbn [bind].
+      pose proof (spec_monitor_step_in states op (buf_abs b) o (buf_abs b') Hin Halt) as Hmon.
+      destruct (IH b' (spec_monitor_step states op o (spec_view (buf_abs b'))) Hi' Hb' Hrest Hmon) as (tl & Hrun & Hacc).
+      rewrite Hrun. cbn [bind]. eexists. split; [reflexivity|].
+      destruct (forallb (fun s => spec_contract s op) states); [|reflexivity].
+      destruct (spec_monitor_step states op o (spec_view (buf_abs b'))) as [|s0 ss] eqn:Em; [destruct Hmon|].
+      exact Hacc.
+    + exists []. split; [reflexivity|].
+      destruct (forallb (fun s => spec_contract s op) states) eqn:Ef; [|reflexivity].
+      rewrite forallb_forall in Ef. rewrite (Ef _ Hin) in Hc. discriminate.
+Qed.
+End RunRefines.
